@@ -594,6 +594,7 @@ func init() {
 		r.importing = "C15"
 		checkEngineInvariants(r, prog, "c15") // a part written in brackets holds whatever characters it holds (U+FFFD is one)
 		checkRuleRefAndClasses(r, prog, "c15")
+		checkPegCombinators(r, prog, "c15") // … every class the segment rule names is consulted (\pL, \pN, …): a digit segment of a pointer is a segment
 		// the parts looked up are the parts of this expression's text: the tree evaluated is the parse of exactly that text
 		r.importing = "C18"
 		checkGetOpts(r, prog, a, "c18") // no spelling costs more than another can afford: no budget unless one is asked for
